@@ -5,8 +5,6 @@ Import ListNotations.
 Require Import RV.Model.C30_Text RV.Model.C31_Lexer RV.Model.C31_Snippet RV.Proof.C31_Snippet RV.Proof.C31_Spans.
 Open Scope N_scope.
 
-Definition line_idx (text : list N) (i : N) : N := N.of_nat (line_of text (N.to_nat i)).
-
 Lemma span_snippet_total : forall text bytes a b, a <= b -> b <= ln text -> lenN text <= bytes ->
   snippet true text bytes a (line_idx text a) b (line_idx text b) <> SnPanic.
 Proof.
